@@ -8,4 +8,11 @@ harnesses! { proofs_misc, registry_misc;
     h(mal_duration, 64, crate::malformed::mal_duration, "complete", "C06", "<Duration as Deserialize>::deserialize", "");
     h(mal_arrayvec, 64, crate::malformed::mal_arrayvec, "complete", "C06", "<ArrayVec<V,C> as Deserialize>::deserialize (bulk path)", "");
     h(mal_array_bool, 64, crate::malformed::mal_array_bool, "complete", "C06", "<[T;N] as Deserialize>::deserialize (bulk path, T = bool)", "");
+    h(abi_callee_add, 64, crate::abi::abi_callee_add, "complete", "C09,C10", "generated <dyn Calc as AbiExportable>::call (callee trampoline, method add); abi_entry_light DropInstance", "one exported trait (Calc), all argument values");
+    h(abi_callee_pt, 64, crate::abi::abi_callee_pt, "complete", "C09,C10", "generated callee trampoline (method pt: versioned struct by value and returned)", "one exported trait (Calc), all values, versions 0..1");
+    h(abi_callee_ref, 64, crate::abi::abi_callee_ref, "complete", "C09,C11", "generated callee trampoline (reference argument, by pointer or serialized)", "one exported trait (Calc)");
+    h(abi_callee_unknown_method, 64, crate::abi::abi_callee_unknown_method, "complete", "C09", "generated callee trampoline (unknown method number)", "");
+    h(abi_caller_add, 64, crate::abi::abi_caller_add, "complete", "C09,C10", "generated impl Calc for AbiConnection<dyn Calc> (caller trampoline, method add); parse_return_value_impl; Drop for AbiConnection", "one exported trait (Calc)");
+    h(abi_caller_pt, 64, crate::abi::abi_caller_pt, "complete", "C09,C10", "generated caller trampoline (method pt); parse_return_value_impl", "one exported trait (Calc), versions 0..1");
+    h(abi_caller_ref, 64, crate::abi::abi_caller_ref, "complete", "C09,C11", "generated caller trampoline (reference argument)", "one exported trait (Calc)");
 }
